@@ -348,7 +348,8 @@ Definition idtoken_checks (kw : kwargs) (d : dict) (now : Z) : res unit :=
           else if (exp <? iat)%Z then Err E_IATError
           else match kw_nonce kw, assoc (PS "nonce") d with
                | Some n, Some v => if pyval_eqb (VStr n) v then Ok tt else Err ValueError
-               | _, _ => Ok tt
+               | Some n, None => Err E_MissingRequiredAttribute
+               | None, _ => Ok tt
                end
       | Some _ => Err TypeError
       end
